@@ -100,6 +100,10 @@ def normalise_item(text):
             attr = t[i:j + 1]
             if attr.startswith('#[repr'):
                 res.append(attr)
+            elif attr.startswith('#[derive'):
+                keep = [d for d in ('Clone', 'Copy') if re.search(r'\b%s\b' % d, attr)]
+                if keep:
+                    res.append('#[derive(%s)]' % ', '.join(keep))
             i = j + 1
         else:
             res.append(t[i])
@@ -325,6 +329,19 @@ def gen_fn(fs, cfg, log, vac=False):
 def gen_struct(file, header_re, sub_lines, log):
     src = _read_repo(file)
     a, ob, e = rustlex.find_item(src, header_re)
+    # include the attribute lines directly above the header (derive / repr)
+    while True:
+        ls = src.rfind('\n', 0, a - 1) + 1 if a > 0 else 0
+        prev = src[ls:a].strip()
+        if a > 0 and src[a - 1] != '\n':
+            a = ls  # header regex matched mid-line (e.g. after `pub(crate) `): back up to line start
+            continue
+        pl = src.rfind('\n', 0, ls - 1) + 1 if ls > 0 else 0
+        pline = src[pl:ls].strip()
+        if ls > 0 and (pline.startswith('#[') or pline.startswith('///')):
+            a = pl
+        else:
+            break
     item = normalise_item(src[a:e])
     item = make_pub_fields(item)
     for ln in sub_lines:
